@@ -410,8 +410,16 @@ def strWithoutCore (s : List (Option Nat)) (off : Int) (holes : Nat) (v : V) : L
     else (s, off, holes)
   | none => (s, off, holes)
 
+/-- `String.trimHoles`: drop the holes at both ends (each one dropped leaves the hole count) -/
+def strTrim (r : List (Option Nat) × Int × Nat) : List (Option Nat) × Int × Nat :=
+  let f := trimFront r.1 r.2.1
+  let t := trimBack f.1
+  (t, f.2, r.2.2 - (r.1.length - t.length))
+
 def strWithout (s : List (Option Nat)) (off : Int) (holes : Nat) (v : V) : Plain :=
-  let r := strWithoutCore s off holes v
+  let r := match asChar v with
+    | some _ => strTrim (strWithoutCore s off holes v)
+    | none => (s, off, holes)
   if strCount r.1 r.2.2 = 0 then .empty else .str r.1 r.2.1 r.2.2
 
 /-! ### Bytes -/
@@ -444,12 +452,18 @@ def bytesWithout (b : List Nat) (off : Int) (v : V) : Plain :=
 
 /-! ### Array -/
 
+/-- `NewOffsetArray`: trim holes from both ends, count the rest; nothing but holes is the empty set -/
+def newOffsetArray (off : Int) (vs : List (Option V)) : Plain :=
+  let f := trimFront vs off
+  let t := trimBack f.1
+  if t.isEmpty then .empty else .arr t f.2 (kcount t)
+
 def arrHas (vs : List (Option V)) (off : Int) (v : V) : Bool :=
   match asItem v with
   | some (ix, x) => if off ≤ ix ∧ ix < off + vs.length then kget vs (ix - off).toNat == some x else false
   | none => false
 
-/-- `Array.withItem`: grows at either end, fills a hole, panics on an occupied index -/
+/-- `Array.withItem`: grows at either end, fills a hole; an occupied index falls back to a generic set -/
 def arrWithItem (vs : List (Option V)) (off : Int) (count : Nat) (index : Int) (item : V) : Outcome Rep :=
   let i := index - off
   if i < 0 then
@@ -457,7 +471,9 @@ def arrWithItem (vs : List (Option V)) (off : Int) (count : Nat) (index : Int) (
   else if i ≥ vs.length then
     .ok (.plain (.arr (vs ++ List.replicate (i.toNat - vs.length) none ++ [some item]) off (count + 1)))
   else if kget vs i.toNat = some item then .ok (.plain (.arr vs off count))
-  else if (kget vs i.toNat).isSome then .panic
+  else if (kget vs i.toNat).isSome then
+    -- occupied by another item: `newGenericSetFromSet(a).With(tuple)`
+    toUnionSetWithItem (newGenericSetFromSet (.arr vs off count)) (itemV index item)
   else .ok (.plain (.arr (setAt vs i.toNat (some item)) off (count + 1)))
 
 def arrWithout (vs : List (Option V)) (off : Int) (count : Nat) (v : V) : Plain :=
@@ -465,8 +481,8 @@ def arrWithout (vs : List (Option V)) (off : Int) (count : Nat) (v : V) : Plain 
   | some (ix, x) =>
     let i := ix - off
     if 0 ≤ i ∧ i < vs.length ∧ kget vs i.toNat = some x then
-      if ix = off then .arr (vs.drop 1) (off + 1) (count - 1)
-      else if ix = off + vs.length - 1 then .arr (vs.take (vs.length - 1)) off (count - 1)
+      if ix = off then newOffsetArray (off + 1) (vs.drop 1)
+      else if ix = off + vs.length - 1 then newOffsetArray off (vs.take (vs.length - 1))
       else if count - 1 = 0 then .empty
       else .arr (eraseAt vs i.toNat) off (count - 1)
     else .arr vs off count
@@ -1068,7 +1084,7 @@ def cmpop (op : CmpOp) (x y : V) : Outcome Bool :=
       | .nsube => !FinSet.subset a b | .nsupe => !FinSet.subset b a
       | .ncomp => !comparable a b | .ncompe => !(comparable a b || decide (a = b))
       | .mem => false | .nmem => false)
-  | _, _, _ => .panic          -- `a.(rel.Set)` on a non-set: a Go panic (C10); never generated
+  | _, _, _ => .unspec         -- a non-set operand: an error (`setOperands`)
 
 def eval : E → Outcome V
   | .lit l => .ok l.den
@@ -1109,12 +1125,6 @@ inductive IV where
 def IV.toV : IV → V
   | .val v => v
   | .set r => r.denV
-
-/-- `NewOffsetArray`: trim holes from both ends, count the rest -/
-def newOffsetArray (off : Int) (vs : List (Option V)) : Plain :=
-  let f := trimFront vs off
-  let t := trimBack f.1
-  if t.isEmpty then .empty else .arr t f.2 (kcount t)
 
 /-- how a literal is represented once evaluated -/
 def litIV (l : Lit) : IV :=
@@ -1157,7 +1167,7 @@ def cmpop (op : CmpOp) (x y : IV) : Outcome Bool :=
       | .nsube => !subsetOrEqualI a b | .nsupe => !subsetOrEqualI b a
       | .ncomp => !subsetOrSupersetI a b | .ncompe => !subsetSupersetOrEqualI b a
       | .mem => false | .nmem => false)
-  | _, _, _ => .panic
+  | _, _, _ => .err
 
 def eval : E → Outcome IV
   | .lit l => .ok (litIV l)
@@ -1235,7 +1245,7 @@ def bytesGapIn (xs : List V) : Bool :=
   | i :: r => decide (maxInt r i - minInt r i + 1 ≠ (r.length + 1 : Nat))
 
 /-- a `(@, @char)`/`(@, @byte)` pair whose character/byte is outside the range the specialised
-tuple can hold (`rune(…)`/`byte(…)` conversions: repair #20, owned by C02) -/
+tuple can hold: it stays a generic tuple (repair #20) -/
 def badRangeTuple : V → Bool
   | .tup [(n1, .num _), (n2, .num c)] =>
     n1 == "@" && ((n2 == "@char" && (c < 0 || c > maxRune)) || (n2 == "@byte" && (c < 0 || c > 255)))
@@ -1268,17 +1278,26 @@ def unionBytesGap (a b : List V) : Bool :=
     decide (lb < la - 1) || decide (la < lb - 1)
   | _, _ => false
 
+/-- `Relation.With` adds any tuple with the relation's names to the relation, also one that the
+SetBuilder would route to a String/Bytes/Array bucket (possible only when the relation's heading is
+(@, @char|@byte|@item), i.e. it holds a pair that cannot be specialised) -/
+def relWithSugar (xs : List V) (v : V) : Bool :=
+  match v with
+  | .tup as =>
+    xs.any (fun m => decide (bucketOf m = .rel (as.map (·.1)))) && !decide (bucketOf v = .rel (as.map (·.1)))
+  | _ => false
+
 structure Flags where
   super : Bool := false
   bytesGap : Bool := false
-  badRange : Bool := false
+  relWith : Bool := false
   panic : Bool := false       -- a pinned Go panic (never generated)
   deriving Inhabited
 
 def Flags.or (a b : Flags) : Flags :=
-  ⟨a.super || b.super, a.bytesGap || b.bytesGap, a.badRange || b.badRange, a.panic || b.panic⟩
+  ⟨a.super || b.super, a.bytesGap || b.bytesGap, a.relWith || b.relWith, a.panic || b.panic⟩
 
-def flagsOfV (v : V) : Flags := ⟨isSuper v, isBytesGap v, isBadRange v, false⟩
+def flagsOfV (v : V) : Flags := ⟨isSuper v, isBytesGap v, false, false⟩
 
 def flagsOfOutcome : Outcome V → Flags
   | .ok v => flagsOfV v
@@ -1301,6 +1320,7 @@ def flags : E → Flags
     let extra : Flags :=
       match op with
       | .union => { bytesGap := unionBytesGap x y }
+      | .with_ => { relWith := (match Spec.eval b with | .ok v => relWithSugar x v | _ => false) }
       | .symdiff =>
         let d1 := FinSet.diff x y
         let d2 := FinSet.diff y x
@@ -1317,7 +1337,7 @@ def classOf (e : E) : String :=
   let f := flags e
   if f.super then "KF-superimposed"
   else if f.bytesGap then "KF-bytes-holes"
-  else if f.badRange then "KF-tuple-specialise-range"
+  else if f.relWith then "KF-relation-with-sugar"
   else "good"
 
 end Arrai.C01
